@@ -81,6 +81,37 @@ theorem fiter_refines_filter {σ α : Type} (I : It σ α) (flt rng : α → Boo
     drain I flt rng g k (new s) = (drainIt I n s).filter (fun e => flt e && rng e) :=
   drain_eq_filter I flt rng n s none g k h hg hk
 
+/-! ### the default range (no RANGE clause) — open finding F-C05-902 -/
+
+/-- the range predicate `newFIterator` installs when the statement has no RANGE (constants regenerated from
+`pkg/cursor/fiterator.go` + `pkg/model/tmrange.go`) -/
+def defaultRange (ev : Where.Event) : Bool :=
+  inRange Generated.C05.fiterDefaultRangeMin Generated.C05.fiterDefaultRangeMax ev.ts
+
+/-- what a `SELECT … WHERE e` without RANGE delivers, by `fiter_refines_filter`: the events for which `e` holds **and**
+whose timestamp lies in the default range -/
+theorem fiter_default_range_meaning {σ : Type} (I : It σ Where.Event) (flt : Where.Pred) (n : Nat) (s : σ)
+    (h : Exhausts I n s) :
+    drain I flt defaultRange (n+1) (n+1) (new s) = (drainIt I n s).filter (fun e => flt e && defaultRange e) :=
+  drain_eq_filter I flt defaultRange n s none (n+1) (n+1) h (Nat.le_refl _) (Nat.le_refl _)
+
+/-- the property's reading: without a RANGE every int64 timestamp is in range -/
+def C05_default_range_full : Prop :=
+  ∀ ev : Where.Event, -(2^63) ≤ ev.ts → ev.ts < 2^63 → defaultRange ev = true
+
+/-- **F-C05-902, kernel-checked on the regenerated constants**: the default lower bound is −6795364578871345152 (the
+wrapped `time.Time{}.UnixNano()`), not the int64 minimum, so an event stamped just below it is dropped by the filtering
+iterator although the WHERE function is true for it — it is delivered by the same SELECT without WHERE, which does not
+go through the filtering iterator. (With the repair — default range `[math.MinInt64, math.MaxInt64]` — this theorem
+fails and `C05_default_range_full` becomes provable.) -/
+theorem cex_default_range_drops_early_events :
+    ¬ C05_default_range_full ∧
+    drain (listIt Where.Event) Where.positive defaultRange 2 2 (new ⟨[⟨-6795364578871345153, [109], []⟩], 0, false, false⟩) = [] ∧
+    ([⟨-6795364578871345153, [109], []⟩] : List Where.Event).filter Where.positive = [⟨-6795364578871345153, [109], []⟩] := by
+  refine ⟨fun h => ?_, by decide, by simp [Where.positive]⟩
+  have := h ⟨-6795364578871345153, [109], []⟩ (by decide) (by decide)
+  exact absurd this (by decide)
+
 /-- never alters, reorders or duplicates: the output is a sublist of the wrapped iterator's output -/
 theorem fiter_sublist {σ α : Type} (I : It σ α) (flt rng : α → Bool) (n : Nat) (s : σ) (h : Exhausts I n s) :
     (drain I flt rng (n+1) (n+1) (new s)).Sublist (drainIt I n s) := by
